@@ -55,6 +55,9 @@ func (cc *CertChain) GetCommittee(ctx context.Context, instance uint64) (*gpbft.
 		committeeEpoch = cc.m.BootstrapEpoch - cc.m.EC.Finality
 	} else {
 		lookbackIndex := instance - cc.m.CommitteeLookback - cc.m.InitialInstance + 1
+		// A node takes the committee from the head finalized exactly CommitteeLookback
+		// instances earlier (see gpbftInputs.GetCommittee); index from that instance.
+		lookbackIndex = instance - cc.m.CommitteeLookback - cc.m.InitialInstance
 		if lookbackIndex >= uint64(len(cc.certificates)) {
 			return nil, fmt.Errorf("no prior finality certificate to get committee at instance %d", instance)
 		}
